@@ -66,6 +66,32 @@ def parseItem (toks : List String) : Option Item :=
     some { id, size, whale, metric, budget, ns, grp, wNsTab, wGrpTab, wMetric, noSample, fki, tags, single, rank }
   | _ => none
 
+/-- `acc=id/ns/grp/wNsTab/wGrpTab/w/nos/fki`: the meta carried by the row itself -/
+def parseCarried (tok : String) : Option Carried :=
+  match kv? "acc" tok with
+  | some v =>
+    match v.splitOn "/" with
+    | [id, ns, grp, wns, wgrp, w, nos, fki] => do
+      let metricID ← id.toInt?
+      let ns ← ns.toInt?
+      let grp ← grp.toInt?
+      let wNsTab ← wns.toInt?
+      let wGrpTab ← wgrp.toInt?
+      let wMetric ← w.toInt?
+      let noSample ← (match nos with | "1" => some true | "0" => some false | _ => none)
+      let fki ← parseIntList? fki
+      some { metricID, ns, grp, wNsTab, wGrpTab, wMetric, noSample, fki }
+    | _ => none
+  | none => none
+
+/-- an item line, optionally followed by the carried meta; the model resolves which meta the row is sampled with -/
+def parseItemAcc (toks : List String) : Option Item :=
+  if toks.length == 16 then
+    match parseItem (toks.take 15), parseCarried (toks.getD 15 "") with
+    | some it, some c => some (resolveMeta it (some c))
+    | _, _ => none
+  else parseItem toks
+
 def hex16 (n : Nat) : String :=
   String.ofList ((List.range 16).map (fun i => hexChar ((n >>> (4 * (15 - i))) % 16)))
 
@@ -186,7 +212,7 @@ def dstep (s : DState) (toks : List String) : DState × List String :=
     | some (cfg, b) => ({ cfg := cfg, budget := b, left := s.left }, [])
     | none => ({ s with ok := false }, ["bad-op"])
   | "item" :: rest =>
-    match parseItem rest with
+    match parseItemAcc rest with
     | some it => ({ s with items := it :: s.items }, [])
     | none => ({ s with ok := false }, ["bad-op"])
   | ["draws", l] =>
